@@ -321,4 +321,21 @@ def stalledNext (s : PoolD) (i : Bool) : Option OpD :=
     (if getDl s i then some (.deadline i ((batch (getB s.p i)).length - 1)) else none)
   else none
 
+/-! ### `addressPool` (the upstream addresses of one sender, tried round-robin by `tcpSender.reconnect`) -/
+
+structure AddrPool where
+  addrs : List Nat := []     -- addresses, named by their index in the resolved list
+  head : Nat := 0
+deriving DecidableEq, Repr
+
+/-- `(*addressPool).pick`: the address at `head`, and `head` advances (pointer receiver: the advance is kept) -/
+def pick (p : AddrPool) : AddrPool × Option Nat :=
+  if p.addrs.length = 0 then (p, none)
+  else ({ p with head := (p.head + 1) % p.addrs.length }, p.addrs[p.head]?)
+
+/-- the results of `n` consecutive picks (= `n` consecutive reconnect attempts) -/
+def pickN : Nat → AddrPool → List (Option Nat)
+  | 0, _ => []
+  | n + 1, p => (pick p).2 :: pickN n (pick p).1
+
 end SH.Egress
